@@ -3,6 +3,7 @@ import functools
 import gc_rules as G
 import listing as L
 import label as LB
+import hexr as H
 
 CONTAINERS = "emap 0.0.13 / micromap 0.0.19 / microstack 0.0.7 as audited (DESIGN §3)"
 HAND = "hand argument DESIGN §5.0: rules ⇒ invariants I1–I3 ⇒ statement"
@@ -79,6 +80,24 @@ PROPS = {
         "technique": "MIR taint (byte length vs char count) + guard + writer/reader constant agreement",
         "rules": [("LB1", LB.lb1), ("LB2", LB.lb2), ("LB3", LB.lb3), ("LB4/LB5", LB.lb45)],
         "explanation": "LB1 unit of the single-char decision, LB2 bounded store / Err on over-long, LB3 index parse propagated, LB4/LB5 writer/reader constants agree.",
+        "trusted": [RUSTC],
+        "assumptions": [],
+    },
+    "C15": {
+        "claim": "Decides the structural clauses HX1–HX5: each of the eight Index/IndexMut impls guards its inline-array access by exactly the comparison the byte slice's own bound check makes (bounds table), with the other edge panicking; eq/print/to_vec/byte_at/tail/to_i64/to_f64/to_utf8/is_empty/to_bool/Debug/Display never look at the representation, only at bytes()/len()/print(); bytes() is the array cut to exactly the length field and len() the stored length; numeric conversions use the big-endian pair through a whole-bytes [u8; 8] conversion with the error propagated; from_slice picks the inline form iff len ≤ 8, copies exactly slice.len() bytes and records slice.len(). Does not decide from_str(print(h)) == h (value round trip through the hex crate).",
+        "note": "Trusted: rustc front end + engine; std slice/array indexing semantics (the bounds table is derived from them); hex crate. The text round trip is not decided.",
+        "technique": "MIR sibling-agreement (bounds table) + representation-encapsulation + provenance rules",
+        "rules": [("HX1", H.hx1), ("HX2", H.hx2), ("HX3", H.hx3), ("HX4", H.hx4), ("HX5", H.hx5)],
+        "explanation": "HX1 bounds table over 8 Index impls, HX2 representation encapsulation (12 accessors + PartialEq), HX3 bytes()/len(), HX4 endianness pair and whole-bytes conversion, HX5 from_slice/from_vec.",
+        "trusted": [RUSTC],
+        "assumptions": [],
+    },
+    "C16": {
+        "claim": "Decides CC1–CC3 completely for concat(): no byte source appended to the result is a whole inline array (sources are bytes() views, the heap vector, or the array cut at its length field); left bytes precede right bytes exactly once each and the inline result records l + len(h) with the right bytes placed at [l .. l+len(h)]; both operands are shared references to a type without interior mutability.",
+        "note": "Trusted: rustc front end + engine; Vec::extend_from_slice / copy_from_slice semantics. Known finding F6 (inline-to-heap spill copies the whole array) is listed in known_findings.json because the existing test concatenates_from_hex_vec asserts the defective length.",
+        "technique": "MIR provenance of appended byte sources + ordering by dominance",
+        "rules": [("CC1", H.cc1), ("CC2", H.cc2), ("CC3", H.cc3)],
+        "explanation": "CC1 provenance of every appended byte source, CC2 order and recorded length, CC3 operands unchanged.",
         "trusted": [RUSTC],
         "assumptions": [],
     },
